@@ -190,6 +190,9 @@ where
     /// Initialize the radio for LoRa physical layer communications
     pub async fn init(&mut self) -> Result<(), RadioError> {
         self.cold_start = true;
+        // Whatever the radio was doing ends with the reset. Should init fail
+        // half way, the next operation must not trust the mode from before.
+        self.radio_mode = RadioMode::Sleep;
         self.radio_kind.reset(&mut self.delay).await?;
         self.radio_kind.ensure_ready(self.radio_mode).await?;
         self.radio_kind.set_standby().await?;
